@@ -112,7 +112,9 @@ pub async fn scenario() {
 			.build_with_tokio(tx, rx),
 	);
 	let finished_ids: Arc<Mutex<(Vec<Value>, Vec<Value>)>> = Arc::default(); // (request ids answered, sub ids ended)
-	let all_sub_ids: Arc<Mutex<Vec<Value>>> = Arc::default();
+	let all_sub_ids: Arc<Mutex<Vec<(Value, u64)>>> = Arc::default(); // (subscription id, nonce of the subscribe call)
+	// subscribe calls whose future was dropped before it completed
+	let cancelled_subs: Arc<Mutex<Vec<u64>>> = Arc::default();
 
 	// ---------------- peer: acknowledges everything ----------------
 	let peer = {
@@ -172,9 +174,11 @@ pub async fn scenario() {
 										next_sub += 1;
 										let sid = if next_sub % 2 == 0 { json!(next_sub) } else { json!(format!("s{next_sub}")) };
 										live.push(sid.clone());
-										all_sub_ids.lock().unwrap().push(sid.clone());
+										all_sub_ids.lock().unwrap().push((sid.clone(), params.as_array().and_then(|a| a.first()).and_then(|v| v.as_u64()).unwrap_or(0)));
 										wire.push_text(ok_response(&id, &sid));
 										match mode.as_str() {
+											// the caller may have given up: the server stays quiet on this one
+											"quiet" => {}
 											"close" => {
 												for _ in 0..rt::draw("items", 3) {
 													val += 1;
@@ -241,7 +245,7 @@ pub async fn scenario() {
 	let handler_lock = Arc::new(tokio::sync::Mutex::new(()));
 	let mut hs = Vec::new();
 	for (ti, plan) in plans.into_iter().enumerate() {
-		let (client, nonce, handler_lock) = (client.clone(), nonce.clone(), handler_lock.clone());
+		let (client, nonce, handler_lock, cancelled_subs) = (client.clone(), nonce.clone(), handler_lock.clone(), cancelled_subs.clone());
 		hs.push(rt::spawn("front", async move {
 			for c in plan {
 				let n = nonce.fetch_add(1, Ordering::Relaxed);
@@ -278,12 +282,15 @@ pub async fn scenario() {
 						tokio::time::sleep(Duration::from_millis(50)).await;
 					}
 					Cycle::SubCancelled(k) => {
-						let fut = client.subscribe::<Value, _>("sub", rpc_params![n, "ok"], "unsub");
+						let fut = client.subscribe::<Value, _>("sub", rpc_params![n, if rt::chance("quiet", 1, 2) { "quiet" } else { "ok" }], "unsub");
 						tokio::pin!(fut);
 						tokio::select! {
 							biased;
 							r = &mut fut => { drop(r); }
-							_ = rt::yield_n(k) => { rt::probe("subscribe_cancelled"); }
+							_ = rt::yield_n(k) => {
+								rt::probe("subscribe_cancelled");
+								cancelled_subs.lock().unwrap().push(n);
+							}
 						}
 					}
 					Cycle::SubUnsubscribe | Cycle::SubDrop | Cycle::SubServerClose | Cycle::SubLagThenDrop | Cycle::SubLagThenUnsubscribe | Cycle::SubRefused | Cycle::SubMalformed | Cycle::SubDuplicateId => {
@@ -365,8 +372,16 @@ pub async fn scenario() {
 	// the application dropped without the background task noticing (request queue full, cancelled future) is
 	// noticed now, and the resulting unsubscribe calls are acknowledged
 	if client.is_connected() {
+		// (a subscribe call that was given up needs no such reminder: the background task itself sees the late answer
+		// and has to unsubscribe - unless the request queue can be full, in which case the handle that was already on
+		// its way to the caller may have been dropped unnoticed)
 		let ids = all_sub_ids.lock().unwrap().clone();
-		for sid in ids {
+		let cancelled = cancelled_subs.lock().unwrap().clone();
+		for (sid, sub_nonce) in ids {
+			if max_conc == 256 && cancelled.contains(&sub_nonce) {
+				rt::probe("no_reminder_for_cancelled_subscribe");
+				continue;
+			}
 			wire.push_text(sub_notif("n", &sid, &json!(7)));
 		}
 		wire.push_text(method_notif("mn", Some(&json!(7))));
